@@ -49,6 +49,24 @@ func (s *badgerStore) Close() error {
 	return s.db.Close()
 }
 
+// maxConflictRetries bounds how often a transaction is retried after it lost
+// an optimistic-concurrency conflict to another writer.
+const maxConflictRetries = 1000
+
+// update runs fn in a read-write transaction, retrying it when badger aborts
+// it because a key it read was committed by a concurrent transaction. Every
+// conflict means another writer made progress. fn may run several times and
+// must not keep state between runs.
+func (s *badgerStore) update(fn func(txn *badger.Txn) error) error {
+	var err error
+	for i := 0; i < maxConflictRetries; i++ {
+		if err = s.db.Update(fn); err != badger.ErrConflict {
+			return err
+		}
+	}
+	return err
+}
+
 func (s *badgerStore) CheckAndSaveNonce(ID string, nonce int64) error {
 	// If nonceExpire is set, nonce should be within nonceExpire of now.
 	now := time.Now()
@@ -59,7 +77,7 @@ func (s *badgerStore) CheckAndSaveNonce(ID string, nonce int64) error {
 		}
 	}
 	key := []byte(fmt.Sprintf("vip:nonce:%s", ID))
-	return s.db.Update(func(txn *badger.Txn) error {
+	return s.update(func(txn *badger.Txn) error {
 		var lastNonce int64
 		if err := getItem(txn, key, &lastNonce); err == nil {
 			if lastNonce >= nonce {
@@ -122,7 +140,7 @@ func (s *badgerStore) GetNodeBalance(nodeID store.NodeID) (store.Balance, error)
 // that get migrated later.
 func (s *badgerStore) AddNodeBalance(nodeID store.NodeID, credit *big.Int) error {
 	accountKey := []byte(fmt.Sprintf("vip:account:%s", nodeID))
-	return s.db.Update(func(txn *badger.Txn) error {
+	return s.update(func(txn *badger.Txn) error {
 		var account store.Account
 		balanceKey := []byte(fmt.Sprintf("vip:trial:%s", nodeID))
 		if err := getItem(txn, accountKey, &account); err == badger.ErrKeyNotFound {
@@ -164,7 +182,7 @@ func (s *badgerStore) GetAccountBalance(account store.Account) (store.Balance, e
 
 // AddNodeBalance adds credit to an account balance. (Can be negative)
 func (s *badgerStore) AddAccountBalance(account store.Account, credit *big.Int) error {
-	return s.db.Update(func(txn *badger.Txn) error {
+	return s.update(func(txn *badger.Txn) error {
 		balanceKey := []byte(fmt.Sprintf("vip:balance:%s", account))
 		var balance store.Balance
 		if err := getItem(txn, balanceKey, &balance); err == badger.ErrKeyNotFound {
@@ -183,7 +201,7 @@ func (s *badgerStore) AddAccountBalance(account store.Account, credit *big.Int) 
 // balance. This should migrate any existing node's balance credit to the
 // account.
 func (s *badgerStore) AddAccountNode(account store.Account, nodeID store.NodeID) error {
-	return s.db.Update(func(txn *badger.Txn) error {
+	return s.update(func(txn *badger.Txn) error {
 		// Check nodeID
 		nodeKey := []byte(fmt.Sprintf("vip:node:%s", nodeID))
 		if !hasKey(txn, nodeKey) {
@@ -359,7 +377,7 @@ func (s *badgerStore) SetNode(n store.Node) error {
 		return store.ErrMalformedNode
 	}
 	key := []byte(fmt.Sprintf("vip:node:%s", n.ID))
-	return s.db.Update(func(txn *badger.Txn) error {
+	return s.update(func(txn *badger.Txn) error {
 		return setItem(txn, key, &n)
 	})
 }
@@ -405,9 +423,12 @@ func (s *badgerStore) UpdateNodePeers(nodeID store.NodeID, peers []string, block
 	nodeKey := []byte(fmt.Sprintf("vip:node:%s", nodeID))
 	peersKey := []byte(fmt.Sprintf("vip:peers:%s", nodeID))
 	now := time.Now()
-	var node store.Node
-	nodePeers := map[store.NodeID]time.Time{}
-	err = s.db.Update(func(txn *badger.Txn) error {
+	err = s.update(func(txn *badger.Txn) error {
+		// The transaction may be retried: start from a clean slate each time.
+		var node store.Node
+		nodePeers := map[store.NodeID]time.Time{}
+		inactive = nil
+
 		// Update this node's LastSeen
 		if err := getItem(txn, nodeKey, &node); err == badger.ErrKeyNotFound {
 			return store.ErrUnregisteredNode
